@@ -73,6 +73,29 @@ def gen_history(rng, length, cli):
     return {"gran": g, "ops": ops, "cli": cli}
 
 
+def corpus_histories():
+    """every ordered triple of API refresh modes on ONE long-lived PreAggregation object, in-order appends between them, each followed by
+    a re-run without new data: state kept on the object by one mode (a remembered watermark, a cached table check) must not leak
+    into the next"""
+    out = []
+    modes = [("full",), ("incr",), ("merge", 0)]
+    d0 = dn(datetime.date(2024, 3, 4))
+    for a in modes:
+        for b in modes:
+            for c_ in modes:
+                nid, ops, day_ = 1, [], d0
+                for m in (a, b, c_):
+                    rows = []
+                    for _ in range(2):
+                        rows.append((nid, day_, nid % 2, 3 + nid))
+                        nid += 1
+                        day_ += 9
+                    ops += [("append", rows), m]
+                ops.append(c_)
+                out.append({"gran": GRANS[(len(out)) % 3], "ops": ops, "cli": False})
+    return out
+
+
 # ------------------------------------------------------------------ model side (Coq, vm_compute)
 PREAMBLE = """From Coq Require Import ZArith List Bool.
 Require Import V.Base.Calendar V.Model.Refresh.
@@ -377,7 +400,7 @@ def run(c):
     try:
         n_hist = 40 if c.tier == "quick" else 400
         max_len = 8 if c.tier == "quick" else 14
-        hs = [gen_history(c.rng, c.rng.randint(2, max_len), cli=(i % 4 == 3)) for i in range(n_hist)]
+        hs = corpus_histories() + [gen_history(c.rng, c.rng.randint(2, max_len), cli=(i % 4 == 3)) for i in range(n_hist)]
         model_ok = lib.coq_make(["Model/Refresh.vo", "Base/Calendar.vo"])[0]
         traces = None
         if model_ok:
